@@ -391,6 +391,14 @@ def check_locking_deque(run, model, rule_ends, rule_token, rule_bound, rule_mono
                 continue
             body = g.loop_body(h)
             only_puts = any(n in body for n, c, m in puts)
+            if rule_monotone:
+                # a loop that waits for `tokens <cmp> items` to change must change it itself: exactly one token per iteration
+                start_ = [m_ for m_, l_ in g.succ[h] if l_ == 'true']
+                per_ = count(g, [n for n, c, m in puts], start=start_[0], end=h) if start_ else None
+                okp = per_ == (1, 1)
+                run.inst(rule_monotone, f, 'each iteration of the repair loop adds exactly one token', okp,
+                         '' if okp else ('an iteration of the loop `while %s` adds %s tokens: with none the poster spins for ever as soon as it sees fewer tokens than items (which racing '
+                                         'posters produce), with more than one it overshoots' % (norm(h.ast), per_)), node=h.ast, obligation=True)
             if only_puts and rule_monotone:
                 ok = cp[0] is ast.Lt
                 run.inst(rule_monotone, f, 'repair loop guard is tokens < items', ok,
